@@ -195,9 +195,8 @@ def rule_search_direction(ck):
     if ubr and bis:
         ck.require(any(is_feasible_call(a) and not t for a, t in facts_at(ml, bis[0])), "C08.R3", mf, bis[0].stmt, ok="bisection only when ub itself is infeasible",
                    bad="the bisection is not on the infeasible edge of the ub check (the full bound would never be granted)", sink="continuous:bisect-edge")
-    bi = repo.fn("SortedSchedulingAlgo.max_feasible_rate.bisection")
-    bl = flow_of(bi)
-    lo, hi = bi.params[1:3]
+    from .c07 import bisection_roles
+    bi, bl, lo, hi = bisection_roles(repo)
     stops = [n for n in bl.cfg.nodes if n.kind == "return" and canon(n.expr) == lo]
     ok = False
     for n in stops:
